@@ -33,7 +33,7 @@ Definition flags_ok (old : str) (n : nat) (n_literal : bool) (dflt : str) : bool
   str_eqb old derive_head && (n =? 1) && n_literal && str_eqb dflt derive_head.
 
 Definition table_ok (ps : list plugin) : bool :=
-  distinct_prefixes_b ps && distinct_names_b ps && forallb (has_head derive_head) ps && no_nesting_b ps
+  distinct_prefixes_b ps && distinct_names_b ps && forallb (has_head derive_head) ps
   && negb (length ps =? 0).
 
 Lemma is_prefix_of_shorter p q x :
@@ -60,10 +60,9 @@ Section Table.
   Hypothesis ok : table_ok T = true.
 
   Let ok_parts : distinct_prefixes_b T = true /\ distinct_names_b T = true /\
-                 forallb (has_head derive_head) T = true /\ no_nesting_b T = true.
+                 forallb (has_head derive_head) T = true.
   Proof.
     unfold table_ok in ok. apply andb_true_iff in ok. destruct ok as [ok1 _].
-    apply andb_true_iff in ok1. destruct ok1 as [ok1 H4].
     apply andb_true_iff in ok1. destruct ok1 as [ok1 H3].
     apply andb_true_iff in ok1. destruct ok1 as [H1 H2]. repeat split; assumption.
   Qed.
@@ -73,9 +72,10 @@ Section Table.
 
   (* default run: at most one plugin matches any call name, so no choice is ever made *)
   Theorem table_single_candidate name p q :
+    no_nesting_b T = true ->
     In p T -> In q T -> matches name p -> matches name q -> p = q.
   Proof.
-    intros Hp Hq Mp Mq. destruct ok_parts as (_ & _ & _ & Hn).
+    intros Hn Hp Hq Mp Mq.
     unfold no_nesting_b in Hn. rewrite forallb_forall in Hn.
     assert (E : pprefix p = pprefix q).
     { destruct (Nat.le_ge_cases (length (pprefix p)) (length (pprefix q))) as [L|L].
@@ -106,7 +106,7 @@ Section Table.
 
   Theorem table_default_flag_identity : map (effective derive_head []) T = T.
   Proof.
-    destruct ok_parts as (_ & _ & Hh & _). rewrite forallb_forall in Hh.
+    destruct ok_parts as (_ & _ & Hh). rewrite forallb_forall in Hh.
     rewrite <- (map_id T) at 2. apply map_ext_in. intros a Ha. apply effective_default. auto.
   Qed.
 
@@ -114,7 +114,7 @@ Section Table.
      renamed table as well *)
   Theorem table_global_distinct global : distinct_prefixes (map (effective global []) T).
   Proof.
-    destruct ok_parts as (_ & _ & Hh & _). rewrite forallb_forall in Hh.
+    destruct ok_parts as (_ & _ & Hh). rewrite forallb_forall in Hh.
     pose proof table_default_unambiguous as Hd. unfold distinct_prefixes in *.
     rewrite map_map.
     assert (E : map (fun x => pprefix (effective global [] x)) T
@@ -142,7 +142,7 @@ Example ex_table_ok :
             mkP (s "dup"%string) (s "deriveDup"%string)] = true.
 Proof. vm_compute. reflexivity. Qed.
 
-(* and a nested default table is rejected *)
-Example ex_table_nested_rejected :
-  table_ok [mkP (s "sort"%string) (s "deriveSort"%string); mkP (s "sorted"%string) (s "deriveSorted"%string)] = false.
+(* a duplicated default prefix is rejected *)
+Example ex_table_dup_rejected :
+  table_ok [mkP (s "sort"%string) (s "deriveSort"%string); mkP (s "sorted"%string) (s "deriveSort"%string)] = false.
 Proof. vm_compute. reflexivity. Qed.
